@@ -35,13 +35,17 @@ type World struct {
 
 	qmu     sync.Mutex
 	qcond   *sync.Cond
-	queue   [][]int32
+	queue   []task
+	dead    map[int]bool
 	active  int
 	stopped bool
 	pushed  int
 
 	rtErr     types.Type
 	rtErrOnce sync.Once
+
+	pureMu    sync.Mutex
+	pureCache map[*ssa.Function]bool
 }
 
 // Overlay maps virtual file paths (under /repo) to real files (under /verif).
@@ -119,7 +123,7 @@ func Load(repo string, ov Overlay, patterns []string) (*World, error) {
 	if len(errs) > 0 {
 		return nil, fmt.Errorf("package load errors:\n%s", strings.Join(errs, "\n"))
 	}
-	w := &World{Pkgs: pkgs, infos: map[*ssa.Function]*fnInfo{}, intrCache: map[*ssa.Function]Intrinsic{}, SSAPkgs: map[string]*ssa.Package{}}
+	w := &World{Pkgs: pkgs, infos: map[*ssa.Function]*fnInfo{}, intrCache: map[*ssa.Function]Intrinsic{}, SSAPkgs: map[string]*ssa.Package{}, pureCache: map[*ssa.Function]bool{}}
 	w.qcond = sync.NewCond(&w.qmu)
 	w.LoadTime = time.Since(t0)
 	t1 := time.Now()
@@ -157,32 +161,42 @@ func (w *World) runtimeErrorType() types.Type {
 
 // ---------- work-list ----------
 
-func (w *World) push(prefix []int32) {
+type task struct {
+	h      int
+	prefix []int32
+}
+
+func (w *World) push(h int, prefix []int32) {
 	w.qmu.Lock()
-	w.queue = append(w.queue, prefix)
-	w.pushed++
+	if !w.dead[h] {
+		w.queue = append(w.queue, task{h, prefix})
+		w.pushed++
+	}
 	w.qmu.Unlock()
 	w.qcond.Signal()
 }
 
-// pop blocks until a prefix is available or all workers are idle.
-func (w *World) pop() ([]int32, bool) {
+// pop blocks until a task is available or all workers are idle.
+func (w *World) pop() (task, bool) {
 	w.qmu.Lock()
 	defer w.qmu.Unlock()
 	for {
 		if w.stopped {
-			return nil, false
+			return task{}, false
 		}
-		if n := len(w.queue); n > 0 {
-			// depth-first: take the most recent (longest prefixes finish subtrees sooner)
-			p := w.queue[n-1]
+		for n := len(w.queue); n > 0; n = len(w.queue) {
+			// depth-first: most recent first
+			t := w.queue[n-1]
 			w.queue = w.queue[:n-1]
+			if w.dead[t.h] {
+				continue
+			}
 			w.active++
-			return p, true
+			return t, true
 		}
 		if w.active == 0 {
 			w.qcond.Broadcast()
-			return nil, false
+			return task{}, false
 		}
 		w.qcond.Wait()
 	}
@@ -197,9 +211,10 @@ func (w *World) done() {
 	w.qmu.Unlock()
 }
 
-func (w *World) stop() {
+// kill drops all pending and future tasks of harness h (budget exhausted).
+func (w *World) kill(h int) {
 	w.qmu.Lock()
-	w.stopped = true
+	w.dead[h] = true
 	w.qmu.Unlock()
 	w.qcond.Broadcast()
 }
@@ -210,6 +225,7 @@ func (w *World) resetQueue() {
 	w.active = 0
 	w.stopped = false
 	w.pushed = 0
+	w.dead = map[int]bool{}
 	w.qmu.Unlock()
 }
 
